@@ -63,6 +63,9 @@ def gen_finite_ops(rng, nrng, S, nops, Q0=None):
         L = len(kinds)
         r = rng.random()
         fermionic = any(p.any() for p in Sx.par)
+        # chains mixing fermionic and other sites: the shared charge does not determine the fermion parity, which is
+        # the documented precondition of a Jordan-Wigner string that is open to the left -> no odd operators there
+        mixed = fermionic and not all(p.any() for p in Sx.par)
         if r < 0.10:
             ops.append({'op': 'convert_form', 'forms': G.gen_forms(rng, L)})
         elif r < 0.30:
@@ -75,7 +78,7 @@ def gen_finite_ops(rng, nrng, S, nops, Q0=None):
                     continue
                 name = rng.choice(cand)
                 m = Sx.op(i, name)
-                if np.linalg.norm(m) < 1e-12:
+                if np.linalg.norm(m) < 1e-12 or (mixed and Sx.needs_JW(i, name)):
                     continue
                 ops.append({'op': 'apply_local_op', 'i': i, 'name': name, 'unitary': None, 'renormalize': renorm})
                 charge_changed = True
@@ -108,15 +111,17 @@ def gen_finite_ops(rng, nrng, S, nops, Q0=None):
         elif r < 0.48:
             nterm = rng.randint(1, 3)
             term = []
+            off = rng.choice([0, 0, 1, -1, 2, -2, L])       # the term is given relative to the offset
             for _t in range(nterm):
                 i = rng.randrange(L)
                 cand = named_ops(Sx, i)
                 if cand:
-                    term.append([rng.choice(cand), i])
-            # an even number of fermionic operators keeps the charges / parity bookkeeping simple for the code
+                    term.append([rng.choice(cand), i - off])
+            if mixed and sum(1 for nm, i in term if Sx.needs_JW(i + off, nm)) % 2 == 1:
+                continue
             if term:
                 charge_changed = True
-                ops.append({'op': 'apply_local_term', 'term': term, 'autoJW': True, 'canonicalize': True,
+                ops.append({'op': 'apply_local_term', 'term': term, 'autoJW': True, 'i_offset': off, 'canonicalize': True,
                             'renormalize': rng.random() < 0.4})
         elif r < 0.58 and L >= 2:
             i = rng.randrange(L - 1)
@@ -160,6 +165,101 @@ def gen_finite_ops(rng, nrng, S, nops, Q0=None):
     return ops, kinds
 
 
+
+# ------------------------------------------------------------------------------------------------ fermionic terms
+FERMI_FAMILIES = {'N': ['F:N', 'SHF:N'], 'pN': ['F:par', 'SHF:par'], 'N2Sz': ['SHF:NSz']}
+FERMI_OPS = ('C', 'Cd', 'Cu', 'Cdu', 'Cdd')
+JW_BY_CHARGE = ('N', 'pN', 'N2Sz')       # families whose fermionic sites define charge_to_JW_parity
+
+
+def gen_fermi_case(rng, nrng, SI):
+    """finite chain of fermionic sites conserving N or the parity (the Jordan-Wigner signs are read off the bond
+    charges), in a state with non-trivial fermion parity on every site, and a short history of apply_local_term /
+    apply_local_op / apply_product_op over ALL their options: terms with an odd and an even number of fermionic
+    operators (several on one site, not ordered by site), i_offset != 0, autoJW, canonicalize, renormalize, unitary.
+    The dense reference is tracked along so that only histories with a non-zero result are generated."""
+    fam = rng.choice(['N', 'N', 'pN', 'pN', 'N2Sz'])
+    pool = FERMI_FAMILIES[fam]
+    r = rng.random()
+    if r < 0.65 or len(pool) == 1:
+        k0 = pool[0]
+        L = rng.randint(3, 4) if k0.startswith('SHF') else rng.randint(4, 8)
+        kinds = [k0] * L
+    elif r < 0.8:
+        kinds = [pool[1]] * rng.randint(3, 4)
+    else:
+        kinds = [rng.choice(pool) for _ in range(rng.randint(3, 5))]
+        while int(np.prod([G.std_table(k)[0] for k in kinds])) > 300:
+            kinds = kinds[:-1]
+    L = len(kinds)
+    meth = rng.choice(['full', 'full', 'full', 'full', 'full_sparse', 'bflat', 'circuit'])
+    spec = {'bc': 'finite', 'sites': kinds, 'build': G.gen_finite_build(rng, kinds, allow=[meth])}
+    b = spec['build']
+    if b['method'] == 'bflat' and max(b['chi']) == 1:         # (excluded in the general stream as well)
+        spec['build'] = b = G.gen_finite_build(rng, kinds, allow=['full'])
+    if b['method'] in ('full', 'full_sparse'):
+        b['normalize'] = True
+        if b['method'] == 'full_sparse':
+            b['k'] = rng.randint(3, 6)
+    S = G.Sites(kinds, SI)
+    D0 = G.build_data(spec, SI)
+    if b['method'] == 'full':
+        # a sector with many basis states: every site (and every stretch of sites) has both parities
+        b['Q'] = G.largest_sector(S, list(range(L)))
+        D0 = G.build_data(spec, SI)
+    ref = FRef(D0['vec'], kinds, SI)
+    ops = []
+    nops = rng.randint(1, 3)
+    tries = 0
+    while len(ops) < nops and tries < 30:
+        tries += 1
+        r = rng.random()
+        renorm = rng.random() < 0.4
+        if r < 0.7:
+            want_odd = rng.random() < 0.6
+            n = rng.randint(1, 4)
+            off = rng.choice([0, 1, -1, 2, -2, 3, -3, L, -L, 1, 2, -1])
+            autoJW = rng.random() < 0.85
+            sites_ = [rng.randrange(L) for _ in range(n)]
+            if rng.random() < 0.5:
+                # compact support away from the left end: the bonds at i_min+i_offset and i_min+2*i_offset differ
+                c = rng.randrange(L)
+                sites_ = [min(L - 1, max(0, c + rng.randint(-1, 1))) for _ in range(n)]
+            term = []
+            for i in sites_:
+                cand = named_ops(S, i)
+                jw = [x for x in cand if S.needs_JW(i, x)]
+                term.append([rng.choice(jw if (jw and rng.random() < 0.7) else cand), i - off])
+            njw = sum(1 for name, i in term if S.needs_JW(i + off, name))
+            if (njw % 2 == 1) != want_odd:
+                i = rng.randrange(L)
+                jw = [x for x in named_ops(S, i) if S.needs_JW(i, x)]
+                term.insert(rng.randint(0, len(term)), [rng.choice(jw), i - off])
+            op = {'op': 'apply_local_term', 'term': term, 'autoJW': autoJW, 'i_offset': off,
+                  'canonicalize': rng.random() < 0.75, 'renormalize': renorm}
+        elif r < 0.85:
+            i = rng.randrange(L)
+            op = {'op': 'apply_local_op', 'i': i, 'name': rng.choice(named_ops(S, i)),
+                  'unitary': rng.choice([None, None, False]), 'renormalize': renorm}
+        else:
+            # product of named on-site operators (documented: NO Jordan-Wigner strings), also a shorter, repeated list
+            if len(set(kinds)) == 1 and rng.random() < 0.4:
+                n = rng.choice([d for d in range(1, L + 1) if L % d == 0])
+            else:
+                n = L
+            lst = [rng.choice(['Id', 'Id'] + named_ops(S, i)) for i in range(n)]
+            op = {'op': 'apply_product_op', 'ops': lst, 'unitary': rng.choice([None, None, False]), 'renormalize': renorm}
+        trial = FRef(ref.vec, kinds, SI)
+        trial.apply(op)
+        if np.linalg.norm(trial.vec) < 1e-6 * np.linalg.norm(ref.vec) or trial.raw_ratio < 1e-6:
+            continue                              # (operators destroying the state are covered by the general stream)
+        ref.apply(op)
+        ops.append(op)
+        if op['op'] == 'apply_local_term' and not op['canonicalize']:
+            break                                 # no canonical form afterwards: ends the history
+    return {'state': spec, 'ops': ops, 'want': {}, 'fermi': True}, D0
+
+
 # ------------------------------------------------------------------------------------------------ finite reference
 
 def full_op(S, factors):
@@ -174,14 +274,14 @@ def jw_diag(S, i):
     return np.diag(1. - 2. * S.par[i])
 
 
-def apply_term(vec, S, term):
+def apply_term(vec, S, term, autoJW=True):
     """ordered product of the operators of `term` (the last one acts first), each with its Jordan-Wigner string
-    to the left, applied to the dense state"""
+    to the left (autoJW=False: no strings at all, as documented), applied to the dense state"""
     njw = 0
     v = vec
     for name, i in reversed(term):
         v = G.apply_on(v, S.op(i, name), [i])
-        if S.needs_JW(i, name):
+        if autoJW and S.needs_JW(i, name):
             njw += 1
             v = G.jw_string(v, S.par, i)
     return v, njw
@@ -194,12 +294,14 @@ class FRef:
         self.SI = SI
         self.sign_free = False                        # documented loss of a global sign (JW string via charges)
         self.trunc = None
+        self.norm_in_tensors = False                  # canonicalize=False: the change of norm stays in the tensors
 
     def S(self):
         return G.Sites(self.kinds, self.SI)
 
     def set_total(self, new, renormalize, norm_before):
-        if renormalize:
+        self.raw_ratio = np.linalg.norm(new) / max(1e-300, norm_before)     # |O psi| / |psi| before renormalising
+        if renormalize and np.linalg.norm(new) > 0:
             n = np.linalg.norm(new)
             self.vec = new / n * norm_before
         else:
@@ -212,6 +314,7 @@ class FRef:
         L = len(self.kinds)
         nb = np.linalg.norm(self.vec)
         self.trunc = None
+        self.raw_ratio = 1.
         if t == 'apply_local_op':
             i = op['i']
             if 'name' in op:
@@ -226,17 +329,27 @@ class FRef:
             self.set_total(v, op.get('renormalize', False), nb)
         elif t == 'apply_product_op':
             v = self.vec
-            for i, o in enumerate(op['ops']):
+            for i in range(L):                        # documented: ops[i % len(ops)] acts on site i, NO JW strings
+                o = op['ops'][i % len(op['ops'])]
                 if o == 'Id':
                     continue
                 m = S.op(i, o) if isinstance(o, str) else cplx_mat(o)
                 v = G.apply_on(v, m, [i])
             self.set_total(v, op.get('renormalize', False), nb)
         elif t == 'apply_local_term':
-            v, njw = apply_term(self.vec, S, op['term'])
+            off = op.get('i_offset', 0)               # documented: offset added to the site indices of the term
+            v, njw = apply_term(self.vec, S, [(name, i + off) for name, i in op['term']], op.get('autoJW', True))
             if njw % 2 == 1:
                 self.sign_free = True
-            self.set_total(v, op.get('renormalize', False), nb)
+            if op.get('canonicalize', True):
+                self.set_total(v, op.get('renormalize', False), nb)
+            else:                                     # `renormalize` is documented to be ignored; no canonical form
+                self.vec = v
+                self.raw_ratio = np.linalg.norm(v) / max(1e-300, nb)
+                self.not_canonical = True
+                if not self.norm_in_tensors:
+                    self.norm_in_tensors = True
+                    self.frozen_norm = nb
         elif t == 'swap_sites':
             i = op['i']
             perm = list(range(L))
@@ -291,6 +404,10 @@ def check_finite_case(ctx, case, r, A, key, D, SI, perm_lits, perm_meta):
             op = ops[k - 1]
             Dother = G.build_data(op['other'], SI) if op['op'] == 'add' else None
             ref.apply(op, Dother)
+            if op['op'].startswith('apply_') and ref.raw_ratio < 1e-9:
+                # the documented result is the zero vector, which a normalised MPS cannot represent: nothing to compare
+                ctx.count('finite-zero-result', [spec, ops[:k]], nontrivial=False)
+                return
             if op['op'] == 'permute_sites' and prev is not None and k - 1 < len(r['extra']):
                 ex = r['extra'][k - 1]
                 dims_b = prev['dims']
@@ -343,8 +460,11 @@ def check_finite_case(ctx, case, r, A, key, D, SI, perm_lits, perm_meta):
                 ref.not_canonical = True       # truncation leaves the canonical form only approximately
             want = ref.vec.reshape(-1)
             scale = max(1e-300, np.linalg.norm(want))
-        if abs(abs(nrm) - scale) > 1e-8 * max(1., scale) and not (opn and opn['op'] in ('swap_sites', 'permute_sites', 'group_split')):
+        if abs(abs(nrm) - scale) > 1e-8 * max(1., scale) and not ref.norm_in_tensors and \
+                not (opn and opn['op'] in ('swap_sites', 'permute_sites', 'group_split')):
             fail('psi.norm = %r, the dense state has norm %r' % (nrm, scale), k)
+        if ref.norm_in_tensors and abs(abs(nrm) - ref.frozen_norm) > 1e-8 * max(1., ref.frozen_norm):
+            fail('psi.norm = %r changed although canonicalize=False (norm before %r)' % (nrm, ref.frozen_norm), k)
         if 'full_error' in o:
             fail('get_full_wavefunction raises ' + o['full_error'], k)
             return
@@ -413,6 +533,7 @@ class IRef:
         S = self.S()
         eta0 = abs(self.tm().eta)
         self._tm = None
+        self.raw_ratio = 1.
         if t == 'roll_mps_unit_cell':
             k = op['shift']
             self.Ms = [self.Ms[(j - k) % L] for j in range(L)]
@@ -435,6 +556,26 @@ class IRef:
                 d0, d1 = S.dims[i % L], S.dims[(i + 1) % L]
                 m4 = m.reshape(d0, d1, d0, d1)
                 self.two_site(i, lambda th: np.einsum('pqrs,arsb->apqb', m4, th))
+            if not op.get('renormalize', False):
+                self.norm = self.norm * np.sqrt(abs(self.tm().eta) / eta0)
+        elif t == 'apply_local_term':
+            # documented: the term (indices shifted by i_offset) is applied in every unit cell; here the shifted sites
+            # lie within L consecutive sites and the number of fermionic operators is even, so the terms of different
+            # unit cells act on disjoint sites and commute: one operator per site, Jordan-Wigner factors in between
+            off = op.get('i_offset', 0)
+            term = [(name, i + off) for name, i in op['term']]
+            for s_ in sorted(set(i for _, i in term) | set(range(min(i for _, i in term), max(i for _, i in term)))):
+                m = np.eye(S.dims[s_ % L], dtype=complex)
+                for name, i in term:
+                    if i == s_:
+                        m = m @ S.op(i % L, name)
+                    elif s_ < i and op.get('autoJW', True) and S.needs_JW(i % L, name):
+                        m = m @ jw_diag(S, s_ % L)
+                self.Ms[s_ % L] = np.einsum('pq,aqb->apb', m, self.Ms[s_ % L])
+            with np.errstate(all='ignore'):
+                self.raw_ratio = abs(self.tm().eta) / eta0 if all(np.isfinite(M).all() and np.abs(M).max() > 0 for M in self.Ms) else 0.
+            if not (self.raw_ratio > 1e-12):
+                return                                # the documented result is the zero state
             if not op.get('renormalize', False):
                 self.norm = self.norm * np.sqrt(abs(self.tm().eta) / eta0)
         elif t == 'swap_sites':
@@ -461,7 +602,7 @@ class IRef:
         self._tm = None
 
 
-def gen_infinite_ops(rng, nrng, kinds, SI, nops):
+def gen_infinite_ops(rng, nrng, kinds, SI, nops, real_state=False):
     ops = []
     kinds = list(kinds)
     for _ in range(nops):
@@ -493,11 +634,34 @@ def gen_infinite_ops(rng, nrng, kinds, SI, nops):
                 if L == 2 and False:
                     continue
                 ops.append({'op': 'apply_local_op', 'i': i, 'n': 2, 'mat': mat_json(m), 'unitary': None, 'renormalize': False})
-        elif r < 0.86 and L >= 3:
+        elif r < 0.86:
+            # term with an even number of fermionic operators (an open string is refused for infinite MPS), sites
+            # within L consecutive sites anywhere relative to the unit cell, given relative to a random i_offset
+            i0 = rng.randint(-L, 2 * L)
+            off = rng.choice([0, 1, -1, 2, L, -L, 2 * L + 1, -3])
+            autoJW = rng.random() < 0.85
+            term = []
+            for _t in range(rng.randint(1, 3)):
+                i = i0 + rng.randrange(L)
+                cand = [x for x in named_ops(Sx, i % L) if real_state is False or np.abs(Sx.op(i % L, x).imag).max() == 0]
+                if cand:
+                    term.append([rng.choice(cand), i - off])
+            njw = [k_ for k_, (nm, i) in enumerate(term) if Sx.needs_JW((i + off) % L, nm)]
+            if autoJW and len(njw) % 2 == 1:
+                i = i0 + rng.randrange(L)
+                jw = [x for x in named_ops(Sx, i % L) if Sx.needs_JW(i % L, x)]
+                if jw:
+                    term.insert(rng.randint(0, len(term)), [rng.choice(jw), i - off])
+                else:
+                    term.pop(njw[0])
+            if term:
+                ops.append({'op': 'apply_local_term', 'term': term, 'autoJW': autoJW, 'i_offset': off, 'canonicalize': True,
+                            'renormalize': rng.random() < 0.5})
+        elif r < 0.91 and L >= 3:
             i = rng.randrange(L - 1)
             ops.append({'op': 'swap_sites', 'i': i, 'swap_op': 'auto'})
             kinds[i], kinds[i + 1] = kinds[i + 1], kinds[i]
-        elif r < 0.92 and L >= 3:
+        elif r < 0.95 and L >= 3:
             perm = list(range(L))
             rng.shuffle(perm)
             ops.append({'op': 'permute_sites', 'perm': perm})
@@ -505,7 +669,7 @@ def gen_infinite_ops(rng, nrng, kinds, SI, nops):
             for a, p in enumerate(perm):
                 new[p] = kinds[a]
             kinds = new
-        elif r < 0.96 and L % 2 == 0:
+        elif r < 0.975 and L % 2 == 0:
             ops.append({'op': 'group_sites', 'n': 2, 'observe': False})
             ops.append({'op': 'group_split', 'trunc': {'chi_max': 1000, 'svd_min': 1e-13}})
         else:
@@ -546,6 +710,9 @@ def check_infinite_case(ctx, case, r, A, key, D, SI, perm_lits, perm_meta):
         if k > 0:
             ref.apply(ops[k - 1])
             op = ops[k - 1]
+            if not (ref.raw_ratio > 1e-9):
+                ctx.count('infinite-zero-result', [spec, ops[:k]], nontrivial=False)    # nothing to compare with
+                return
             if op['op'] == 'permute_sites' and prev is not None and o is not None and k - 1 < len(r['extra']):
                 ex = r['extra'][k - 1]
                 perm_lits.append(coq_lit((list(op['perm']), prev['dims'], [Nat(x) for x in ex['swaps']], o['dims'])))
@@ -616,6 +783,15 @@ def main(ctx):
             pass
         cases.append({'state': spec, 'ops': ops, 'want': {}})
         datas.append(G.build_data(spec, SI))
+    # fermionic terms over all options of apply_local_term / apply_local_op / apply_product_op (own generators, so
+    # that the streams above do not depend on it)
+    frng = _random.Random(ctx.seed * 7919 + 911)
+    fnrng = np.random.default_rng(ctx.seed * 7919 + 912)
+    for n in range(ctx.pick(160, 1200) * mult):
+        case, D0 = gen_fermi_case(frng, fnrng, SI)
+        if case['ops']:
+            cases.append(case)
+            datas.append(D0)
     for n in range(ninf):
         L = rng.choice([2, 2, 3, 3, 4])
         kinds = G.gen_sites(rng, L, maxdim=20)
@@ -629,7 +805,8 @@ def main(ctx):
         if spec['build']['method'] == 'bflat' and not D['ok']:
             continue
         ops = [{'op': 'convert_form', 'forms': G.gen_forms(rng, L)}] if rng.random() < 0.7 else []
-        ops += gen_infinite_ops(rng, nrng, kinds, SI, rng.randint(1, 4))
+        real_state = (not spec['build'].get('cplx')) or spec['build']['method'] == 'product'
+        ops += gen_infinite_ops(rng, nrng, kinds, SI, rng.randint(1, 4), real_state=real_state)
         # segments to compare after every operation (the unit cell may have grown)
         Lc = L
         dims = [G.std_table(k)[0] for k in kinds]
@@ -653,13 +830,25 @@ def main(ctx):
         info = {'stream': bc, 'case': case}
         for o in case['ops']:
             hist[bc + '/' + o['op']] = hist.get(bc + '/' + o['op'], 0) + 1
+            if o['op'] == 'apply_local_term':
+                hk = 'apply_local_term:%s%s%s%s' % ('odd' if sum(1 for nm, i_ in o['term'] if nm in FERMI_OPS) % 2 else 'even',
+                                                    ',i_offset' if o.get('i_offset') else '', '' if o.get('autoJW', True) else ',noJW',
+                                                    '' if o.get('canonicalize', True) else ',nocanon')
+                hist[hk] = hist.get(hk, 0) + 1
         if 'build_error' in r:
             ctx.fail('correspondence', 'constructor raised (covered by C07): ' + r['build_error'][:300], info)
             continue
         if 'op_error' in r:
             e = r['op_error']
             opx = case['ops'][e['step']]
-            if any(m in e['msg'] for m in REFUSALS):
+            fam = G.KINDS[spec['sites'][0]][2]
+            if REFUSALS[1] in e['msg'] and fam in JW_BY_CHARGE and opx['op'] in ('apply_local_term', 'apply_local_op'):
+                # the sites conserve N / the parity: the Jordan-Wigner signs ARE determined by the bond charges
+                ctx.fail('oracle', '%s(%s) on a valid finite chain of %s raised %s: %s although the fermion parity is a '
+                         'conserved charge and all shifted site indices lie inside the chain' % (
+                             opx['op'], {k_: v_ for k_, v_ in opx.items() if k_ != 'op'}, sorted(set(spec['sites'])),
+                             e['type'], e['msg'][:200]), info, match_key='C09:%s:%s:JW-refused' % (bc, opx['op']))
+            elif any(m in e['msg'] for m in REFUSALS):
                 ctx.count(bc + '-refused', [spec, case['ops']], nontrivial=False)     # explicit, documented refusal
             elif 'destroys state' in e['msg'] or e['type'] == 'ZeroDivisionError':
                 # legitimate only when the documented result is the zero vector
@@ -676,6 +865,11 @@ def main(ctx):
                     o3['renormalize'] = False
                     fr2.apply(o3, None)
                     ok = np.linalg.norm(fr2.vec) < 1e-9 * max(1., n0)
+                elif opx['op'] == 'apply_local_term':
+                    ir = IRef(D['Ms'], spec['sites'], SI)
+                    for o2 in case['ops'][:e['step'] + 1]:
+                        ir.apply(o2)
+                    ok = not (ir.raw_ratio > 1e-9)
                 if not ok:
                     ctx.fail('oracle', '%s raised %s: %s although the result is not the zero vector' % (opx['op'], e['type'], e['msg'][:150]), info,
                              match_key='C09:%s:%s:raises' % (bc, opx['op']))
@@ -698,7 +892,7 @@ def main(ctx):
         else:
             check_infinite_case(ctx, case, r, A, key, D, SI, perm_lits, perm_meta)
         chis = [max(o['chi']) for o in r['obs'] if o and o.get('chi')]
-        ctx.count(bc, [spec, case['ops']], nontrivial=max(chis + [1]) > 1,
+        ctx.count('fermi-terms' if case.get('fermi') else bc, [spec, case['ops']], nontrivial=max(chis + [1]) > 1,
                   sample={'sites': spec['sites'], 'build': spec['build']['method'], 'ops': [o['op'] for o in case['ops']],
                           'form0': r['obs'][0]['form'], 'chi0': r['obs'][0].get('chi')})
         for lit in c07.form_cases(case, r, A, key, bc != 'infinite'):
@@ -719,12 +913,16 @@ def main(ctx):
             ctx.fail('correspondence', what, meta[b])
         for _ in lits:
             ctx.count(name, len(ctx._distinct), nontrivial=False)
+    if os.environ.get('C09_DEBUG'):
+        import json as _j
+        _j.dump(ctx.violations, open(os.environ['C09_DEBUG'], 'w'), default=str)
     ctx.cov['traces_validated_against_impl'] = len(perm_lits) + len(form_lits) + n_addblocks + n_swapsign
     ctx.cov['input_distribution'] = hist
     ctx.assumptions += [
         'C09 model: permutation loop and structure operations on labels/exponents/dimensions; block structure of add (Model/MpsAdd.v, stream add-blocks: integer tensors, trivial charges, canonical_form_finite stubbed); other tensor contents, SVD splits, compression and the canonicalisation inside add are oracle-checked only',
         'C09 oracle: dense states in the stored local basis (site operator matrices taken from the site classes, which C12 checks); fermionic signs of site permutations computed from occupation parities; '
-        'operators whose Jordan-Wigner string is applied through bond charges are compared up to the documented global sign; compression is checked against the angle bound sum arcsin sqrt(eps_i); '
+        'operators whose Jordan-Wigner string is applied through bond charges are compared up to the documented global sign (relative signs are compared) and are only generated on chains whose sites are all fermionic; a refusal (cannot extract JW signs) is accepted only when no conserved charge carries the fermion parity; '
+        'histories whose documented result is the zero vector (|O psi| < 1e-9 |psi|) are not compared beyond that point; compression is checked against the angle bound sum arcsin sqrt(eps_i); '
         'infinite states through reduced density matrices from the transfer matrix of explicitly transformed unit-cell tensors',
     ]
     return ctx.finish(RULE, 'theorems of coq/Props/C09.v on the models; permute_sites swap sequences and structural label/dimension bookkeeping replayed on the models; '
@@ -733,5 +931,6 @@ def main(ctx):
 
 RULE = ('finite chains L 2-7 and infinite unit cells 2-4(-8 after enlarging) of spin/fermion/boson sites with and without conserved charges, built by the constructors of C07, '
         'in random stored forms; histories of 1-6 operations out of apply_local_op (named incl. fermionic, random 1-3 site, unitary or not, renormalize or not), apply_product_op, '
-        'apply_local_term, swap_sites, permute_sites, add, group_sites+group_split, enlarge_chi, compress(_svd), spatial_inversion, roll_mps_unit_cell, enlarge_mps_unit_cell, convert_form; '
+        'apply_local_term (odd and even numbers of fermionic operators, i_offset, autoJW, canonicalize, renormalize; infinite: even terms within one unit-cell length), swap_sites, permute_sites, add, group_sites+group_split, enlarge_chi, compress(_svd), spatial_inversion, roll_mps_unit_cell, enlarge_mps_unit_cell, convert_form; '
+        'stream fermi-terms: chains of 3-8 fermionic sites conserving N / parity in states with both parities on every site, histories of 1-3 term / named-operator / product applications over all their options; '
         'non-trivial = some bond dimension > 1; distinct = distinct (state spec, history)')
